@@ -81,7 +81,7 @@ def _sig_spline(ev):
     if e == "Ledger":
         T = 10000
         order = [("lookup", ev["lookup"] > 0), ("interp", ev["interp"] > T), ("smooth", ev["c1"] > T or ev["c2"] > T), ("natural", ev["nat"] > T),
-                 ("linear", ev["lin"] > T), ("unit", ev["unit"] > T)]
+                 ("linear", ev["lin"] > T), ("unit", ev["unit"] > T), ("query-order", ev.get("ord", 0) > T)]
         k = next((n for n, bad in order if bad), "ledger")
         return "SPLINE:%s:%s" % (k, dec_name(ev["dec"])), "%d knots, spacing decade %s, irregular=%s: %s" % (ev["nk"], dec_name(ev["dec"]), ev["irr"], ev)
     if e == "Interp":
@@ -193,6 +193,9 @@ def _sig_nm(ev, block):
             head.get("n"), head.get("maxit"), ev)
     if e == "Check":
         return "NM:value", "dimension %s: the objective at the returned point is not the value NelderMeadSimplex reported" % head.get("n")
+    if e == "Quad" and ev.get("cls") == 1 and ev.get("dist", 0) <= 1000000:
+        return "NM:minimiser:offset", ("strictly convex quadratic dim %s cond %s with a minimum value of large magnitude (resolution decade 1e%s): absolute distance to the true "
+                                       "minimiser %s (1e-9 units) exceeds 30 sqrt(1e%s): the stop test is no longer the documented absolute one") % (ev.get("dim"), ev.get("cond"), ev.get("R"), ev.get("adist"), ev.get("R"))
     if e == "Quad":
         return "NM:minimiser", "strictly convex quadratic dim %s cond %s: distance to the true minimiser %s (1e-9 units, relative)" % (ev.get("dim"), ev.get("cond"), ev.get("dist"))
     return "NM:trace:%s" % e, "event does not fit the contract: %s" % ev
@@ -245,8 +248,13 @@ def nm_check(ctx, rd, nfull, nlight):
             return False
         trace.binding_selftest(ctx, "TraceNMProp", "Trace_NMProp.cfg", [e for b in blocks[:3] for e in b], corrupt_nm, "binding_nm")
     q = [e for e in events if e["e"] == "Quad" and e["judge"]]
+    qo = [e for e in q if e.get("cls") == 1]
+    bound = {-12: 30000, -11: 94868, -10: 300000, -9: 948683, -8: 3000000, -7: 9486833}
     ctx.steps["nm"] = dict(full_runs=nfull, light_runs=nlight, judged=len(q), converged=sum(e["conv"] for e in q),
-                           worst_dist_1e9=max([e["dist"] for e in q] or [0]), automaton_accepted=bool(ok))
+                           worst_dist_1e9=max([e["dist"] for e in q] or [0]), automaton_accepted=bool(ok),
+                           offset_class_runs=len(qo), offset_class_worst_over_bound=round(max([e["adist"] / bound.get(e["R"], 30000000) for e in qo if e["conv"]] or [0]), 4))
+    if not qo and nlight >= 12:
+        raise InfraError("c19_nm: no run of the offset class was judged")
     ctx.note("Nelder-Mead: %d callback traces through the move automaton (%s), %d summary runs; worst distance to the minimiser %.2e (bound 1e-3)" % (
         nfull, "accepted" if ok else "REJECTED", nlight, ctx.steps["nm"]["worst_dist_1e9"] * 1e-9))
 
